@@ -111,6 +111,16 @@ func vChoice(tag string, n int) int {
 	return k
 }
 
+// fork-free combinators for oracles (plain functions natively, single terms in the engine)
+func vIte64(c bool, a, b int64) int64 {
+	if c {
+		return a
+	}
+	return b
+}
+func vAnd(a, b bool) bool { return a && b }
+func vOr(a, b bool) bool  { return a || b }
+
 // vEnvChoice is only called from engine-side environment models; natively it is random.
 func vEnvChoice(tag string, n int) int { return rand.Intn(n) }
 
